@@ -21,6 +21,21 @@ Theorem C28_org_scoped_never_other_org :
 Proof. exact org_scoped_other_org. Qed.
 Print Assumptions C28_org_scoped_never_other_org.
 
+(** PermissionSet.Allowed is the plain union of its members: the empty set grants nothing,
+    access is monotone in the set, a concatenation grants what either part grants (no
+    combination of permissions grants more than one of them alone), and a matching
+    permission always carries the request's action. *)
+Theorem C28_allowed_is_union :
+  (forall q, allowed [] q = false) /\
+  (forall ps ps' q, allowed (ps ++ ps') q = allowed ps q || allowed ps' q) /\
+  (forall ps ps' q, (forall p, In p ps -> In p ps') -> allowed ps q = true -> allowed ps' q = true) /\
+  (forall p q, matchesV1 p q = true -> act p = act q).
+Proof.
+  split; [exact allowed_nil|]. split; [exact allowed_app|].
+  split; [exact allowed_monotone | exact matches_same_action].
+Qed.
+Print Assumptions C28_allowed_is_union.
+
 (** Non-vacuity: an org-scoped bucket read permission grants a bucket in its org
     and not one in another org. *)
 Example C28_nonvacuous :
